@@ -107,6 +107,15 @@ theorem base26_injective (a b : Nat) (h : base26 a = base26 b) : a = b := by
   rw [h] at ha
   omega
 
+/-- C10, binder and free-variable names: `base26_spec` under the name the audit pins -/
+theorem C10_base26_spec (n : Nat) :
+    base26 n ≠ [] ∧ (∀ c ∈ base26 n, 97 ≤ c ∧ c ≤ 122) ∧ C10.value26 (base26 n) = n + 1 :=
+  base26_spec n
+
+/-- C10: distinct ordinals get distinct names (`base26_injective` under the name the audit pins) -/
+theorem C10_base26_injective (a b : Nat) (h : base26 a = base26 b) : a = b :=
+  base26_injective a b h
+
 example : base26 0 = [97] := by decide +kernel
 example : base26 25 = [122] := by decide +kernel
 example : base26 26 = [97, 97] := by decide +kernel
@@ -639,7 +648,8 @@ open Spec Spec.Cl Spec.Cl.NTerm Parser.CToken
 methods, checked against Rust for all code points by the harness): the lower-case ASCII letters
 are alphabetic, alphanumeric and not whitespace; the space is whitespace; whitespace is never a
 lambda glyph or a parenthesis, letters are alphanumeric, and whitespace, the parentheses and the
-backslash are not alphanumeric (`Cl.ClsOk`: a name ends at the first non-alphanumeric character) -/
+backslash are not alphanumeric (`Cl.ClsOk`: a name ends at the first non-alphanumeric character —
+or at the glyph `λ`, which the printed names, made of the letters `a`–`z`, never contain) -/
 structure ClsOk10 (cls : CharCls) : Prop where
   lower_alpha : ∀ c, 97 ≤ c → c ≤ 122 → cls.isAlpha c = true
   lower_alnum : ∀ c, 97 ≤ c → c ≤ 122 → cls.isAlnum c = true
@@ -661,7 +671,7 @@ theorem wfName_base26 (hc : ClsOk10 cls) (n : Nat) : WfName cls (base26 n) := by
   | nil => exact absurd hb hne
   | cons c cs =>
     rw [hb] at hr
-    refine ⟨⟨c, cs, rfl, ?_, ?_, ?_⟩, ?_⟩
+    refine ⟨⟨c, cs, rfl, ?_, ?_, ?_⟩, ?_, ?_⟩
     · have := hr c List.mem_cons_self
       exact hc.lower_alpha c this.1 this.2
     · have := hr c List.mem_cons_self
@@ -672,16 +682,19 @@ theorem wfName_base26 (hc : ClsOk10 cls) (n : Nat) : WfName cls (base26 n) := by
     · intro d hd
       have := hr d hd
       simp [cDot]; omega
+    · intro d hd
+      have := hr d hd
+      simp [cLambda]; omega
 
 theorem wfName_varName (hc : ClsOk10 cls) (M d i : Nat) : WfName cls (varName M d i) := by
   unfold varName fname; split <;> exact wfName_base26 hc _
 
 /-- the space and the closing parenthesis are not alphanumeric (`Cl.ClsOk`): they end a name -/
 theorem nameEnd_space (hc : ClsOk10 cls) (s : List Nat) : NameEnd cls (32 :: s) :=
-  C09C.ws_not_alnum hc.ok hc.space_ws
+  .inl (C09C.ws_not_alnum hc.ok hc.space_ws)
 
 theorem nameEnd_rparen (hc : ClsOk10 cls) (s : List Nat) : NameEnd cls (cRparen :: s) :=
-  C09C.rparen_not_alnum hc.ok
+  .inl (C09C.rparen_not_alnum hc.ok)
 
 /-- LEXICAL LAYER: the printed string is a rendering of the token printing of the named term; a
 name is always followed by the single space of an application, a closing parenthesis or the end -/
@@ -973,7 +986,7 @@ free variable -/
 example : parse asciiCls (display 955 (var 0)) .Classic = .ok (var 1) := by
   have wf : Spec.Cl.WfName asciiCls [117, 110, 100, 101, 102, 105, 110, 101, 100] :=
     ⟨⟨117, [110, 100, 101, 102, 105, 110, 101, 100], rfl, by decide, by decide, by decide⟩,
-      by decide⟩
+      by decide, by decide⟩
   have hd : display 955 (var 0) = [117, 110, 100, 101, 102, 105, 110, 101, 100] := by
     decide +kernel
   rw [hd]
